@@ -40,8 +40,8 @@ def strategy(draw, tier="quick"):
     transparent = draw(st.booleans())
     ror = draw(st.booleans())
     nr = draw(st.integers(1, 2))
-    nw = draw(st.integers(1, 2))
-    depth = draw(st.integers(2, 9))
+    nw = draw(st.sampled_from([1, 1, 2, 2, 3]))
+    depth = draw(st.integers(max(2, nw), 9))
     width, gran = draw(st.sampled_from(SHAPES))
     elem = None
     if draw(st.integers(0, 3)) == 0:
